@@ -116,6 +116,14 @@ def run_for(run, root):
         if ov2:
             jobs.append((run.prop, root, ov2))
             meta.append(('twin', M('trace-logging-inserted(%s)' % ','.join(os.path.basename(f) for f in files), None, None, None)))
+        from .alpha import swap_if_else
+        ov3 = {}
+        for f in files:
+            with open(os.path.join(root, f), 'rb') as fh:
+                ov3[f] = swap_if_else(fh.read().decode('utf-8'))
+        if ov3:
+            jobs.append((run.prop, root, ov3))
+            meta.append(('twin', M('if-else-swapped(%s)' % ','.join(os.path.basename(f) for f in files), None, None, None)))
     except SyntaxError:
         pass
     for (kind, m), r in zip(meta, _analyse_many(jobs)):
